@@ -357,7 +357,10 @@ Inductive ev :=
 | EAge (id : Z)               (* time passes: created long ago *)
 | ESlow (id : Z)              (* time passes: started long ago *)
 | ERegion (rid : Z) (r : region)    (* a region comes into existence (store side and PD cache) *)
-| EPoke (id : Z) (k : poke).        (* somebody holding the *Operator calls one of its exported status methods *)
+| EPoke (id : Z) (k : poke)         (* somebody holding the *Operator calls one of its exported status methods *)
+| EInfluence                        (* a scheduler calls GetOpInfluence: CheckTimeout / CheckSuccess on every running operator *)
+| EVanish (rid : Z)                 (* the region is merged away: the stores and PD's cache no longer have it *)
+| EPollGone (rid : Z).              (* PushOperators reaches the operator of a region PD no longer knows *)
 
 Inductive dres := DAccepted | DStale | DRejected | DNone.
 
@@ -379,6 +382,11 @@ Fixpoint insert_sorted {A} (e : Z * A) (l : list (Z * A)) : list (Z * A) :=
   end.
 Definition sort_alist {A} (l : list (Z * A)) : list (Z * A) := fold_right insert_sorted [] l.
 
+Fixpoint dedupZ (l : list Z) : list Z :=
+  match l with [] => [] | x :: r => if existsb (Z.eqb x) r then dedupZ r else x :: dedupZ r end.
+
+(* GetOperatorStatus answers for a region exactly if an operator runs on it or a record exists: the regions asked are
+   those (also regions PD's cache no longer has) *)
 Definition query (c : ctl) (rid : Z) : option (Z * Z) :=
   match alist_get (running c) rid with
   | Some id => match get_op c id with Some o => Some (id, pdpb_status (o_st o)) | None => None end
@@ -388,7 +396,8 @@ Definition query (c : ctl) (rid : Z) : option (Z * Z) :=
 Definition snapshot (c : ctl) (res : Z) (sent : list msg) (reg : option region) (d : dres) : obs :=
   Obs res sent (sort_alist (running c))
       (sort_alist (map (fun o => (o_id o, o_st o)) (ops c)))
-      (sort_alist (flat_map (fun e => match query c (fst e) with Some q => [(fst e, q)] | None => [] end) (cache c)))
+      (sort_alist (flat_map (fun rid => match query c rid with Some q => [(rid, q)] | None => [] end)
+                            (dedupZ (map fst (running c) ++ map fst (records c)))))
       reg d.
 
 Definition b2z' (b : bool) : Z := if b then 1 else 0.
@@ -416,6 +425,27 @@ Fixpoint remove_first_for (rid : Z) (l : list msg) : list msg :=
   end.
 
 Definition sent_since (c c' : ctl) : list msg := skipn (length (inbox c)) (inbox c').
+
+(* GetOpInfluence: `if !op.CheckTimeout() && !op.CheckSuccess()` on every running operator (the influence itself is
+   not modelled); the status moves while the operator stays in the running set *)
+Definition influence_one (c : ctl) (id : Z) : ctl :=
+  match get_op c id with
+  | Some o => let '(o1, t) := check_timeout o in
+              set_op c (if t then o1 else fst (check_success o1))
+  | None => c
+  end.
+Definition influence (c : ctl) : ctl := fold_left influence_one (map snd (running c)) c.
+
+(* pollNeedDispatchRegion, branch `r == nil`: removeOperatorLocked, Cancel, buryOperator - whatever the status is *)
+Definition poll_gone (c : ctl) (rid : Z) : ctl :=
+  match alist_get (cache c) rid, alist_get (running c) rid with
+  | None, Some id =>
+      match get_op c id with
+      | Some o => let c1 := fst (remove_locked c o) in bury (cancel c1 id) id
+      | None => c
+      end
+  | _, _ => c
+  end.
 
 (* result: the method's boolean (Check: whether a step is handed out), -1 if Check has no cached region to look at *)
 Definition poke_op (c : ctl) (o : opr) (k : poke) : opr * Z :=
@@ -496,6 +526,11 @@ Definition ctl_step (c : ctl) (e : ev) : ctl * obs :=
       | Some o => let c' := set_op c (fst (poke_op c o k)) in (c', snapshot c' (snd (poke_op c o k)) [] None DNone)
       | None => (c, snapshot c (-1) [] None DNone)
       end
+  | EInfluence => let c' := influence c in (c', snapshot c' (-1) [] None DNone)
+  | EVanish rid =>
+      let c' := upd c (alist_del (truth c) rid) (alist_del (cache c) rid) (ops c) (running c) (waiting c) (wcount c) (records c) (inbox c) in
+      (c', snapshot c' (-1) [] None DNone)
+  | EPollGone rid => let c' := poll_gone c rid in (c', snapshot c' (-1) [] None DNone)
   end.
 
 Definition init (maxw : Z) : ctl := Ctl [] [] [] [] [] [] [] [] maxw.
